@@ -45,3 +45,60 @@ def check_nested_builders(repo: Repo, rep, rule: str) -> None:
     sigs = {tuple(sorted((k, " ".join(v.split())) for k, v in kws.items() if k in IDENTITY_KW or k == "attrs_registry")) for _, _, kws, _ in cons}
     if len(sigs) > 1:
         rep.violation(rule, f"{M_PACK}::pack_dataclass", "nested builder constructions disagree", f"the four sibling constructions pass different identity arguments: {sorted(sigs)}")
+
+
+def check_own_method_tests(repo: Repo, rep, rule: str) -> None:
+    """Every python-level decision "does this class already have its compiled method?" that guards a nested
+    `builder.add_pack_method()` / `add_unpack_method()` asks for the class's *own* definition
+    (`get_class_that_defines_method(name, loc) != loc`).  `hasattr` / `getattr(..., None)` also accept a method
+    inherited from a parent class: a subclass then runs its parent's compiled code (its own fields and hooks are
+    ignored) -- for the format-specific methods, which are compiled on demand, no test of the suite notices."""
+    import ast as _ast
+
+    from .srcmodel import M_PACK, M_UNPACK
+
+    n = 0
+    for mod in (M_PACK, M_UNPACK):
+        for key, fi in sorted(repo.funcs.items()):
+            if fi.module != mod:
+                continue
+
+            def visit(node, guards):
+                nonlocal n
+                for ch in _ast.iter_child_nodes(node):
+                    if isinstance(ch, (_ast.FunctionDef, _ast.Lambda, _ast.ClassDef)) and ch is not fi.node:
+                        continue
+                    if isinstance(ch, _ast.If):
+                        for b in ch.body:
+                            visit_stmt(b, guards + [ch.test])
+                        for b in ch.orelse:
+                            visit_stmt(b, guards)
+                    else:
+                        visit_stmt(ch, guards)
+
+            def visit_stmt(st, guards):
+                nonlocal n
+                if isinstance(st, _ast.Expr) and isinstance(st.value, _ast.Call) and isinstance(st.value.func, _ast.Attribute) \
+                        and st.value.func.attr in ("add_pack_method", "add_unpack_method"):
+                    n += 1
+                    tests = [_ast.unparse(g) for g in guards]
+                    own = [t for t in tests if "get_class_that_defines_method(" in t]
+                    weak = [t for t in tests if ("hasattr(" in t or "getattr(" in t) and "get_class_that_defines_method(" not in t and "method_name" in t]
+                    if weak or not own:
+                        rep.violation(rule, fi.key, f"{fi.qualname}: nested compilation guarded by `{(weak or tests or ['<nothing>'])[0][:80]}`",
+                                      "the guard accepts a compiled method inherited from a parent class, so a subclass is (de)serialized by its parent's code: fields and hooks the "
+                                      "subclass adds are ignored on the on-demand (format-specific, Self, nested) paths", loc=f"{fi.loc.split(':')[0]}:{st.lineno}")
+                    else:
+                        rep.ok(rule, f"{fi.qualname}: nested compilation guarded by the class's own definition test", None)
+                    return
+                if isinstance(st, _ast.If):
+                    for b in st.body:
+                        visit_stmt(b, guards + [st.test])
+                    for b in st.orelse:
+                        visit_stmt(b, guards)
+                    return
+                visit(st, guards)
+
+            visit(fi.node, [])
+    if n < 4:
+        rep.error(f"{rule}: only {n} nested compilation sites found")
